@@ -2,6 +2,7 @@
 //! `vth <property> [--tier quick|thorough] [--seed N] --out DIR [--replay FILE] [extra…]`
 //! Drives the real versatiles-rs crates; writes cases.txt / impl.txt / stats.json into DIR.
 mod common;
+mod c04;
 mod c20;
 mod memsrc;
 
@@ -22,6 +23,7 @@ fn main() {
 		}
 	}
 	match prop.as_str() {
+		"C04" => c04::run(&args),
 		"C20" => c20::run(&args),
 		_ => {
 			eprintln!("unknown property {prop}");
